@@ -21,10 +21,11 @@ import (
 
 // Job is what a worker receives.
 type Job struct {
-	Wire  *WireJob  `json:"wire,omitempty"`
-	Admit *AdmitJob `json:"admit,omitempty"`
-	Late  *LateJob  `json:"late,omitempty"`
-	Mixed *MixedJob `json:"mixed,omitempty"`
+	Wire      *WireJob      `json:"wire,omitempty"`
+	Admit     *AdmitJob     `json:"admit,omitempty"`
+	Late      *LateJob      `json:"late,omitempty"`
+	Mixed     *MixedJob     `json:"mixed,omitempty"`
+	Downgrade *DowngradeJob `json:"downgrade,omitempty"`
 }
 
 // Vio is one violation found by a worker.
@@ -58,6 +59,8 @@ func serve(raw json.RawMessage) any {
 		return runLate(*j.Late)
 	case j.Mixed != nil:
 		return runMixed(*j.Mixed)
+	case j.Downgrade != nil:
+		return runDowngrade(*j.Downgrade)
 	}
 	return JobOut{SetupErr: "empty job"}
 }
@@ -79,6 +82,8 @@ func jobName(j Job) string {
 			return "admission/" + j.Admit.Kind + "-" + j.Admit.Mode
 		}
 		return "admission/" + j.Admit.Kind
+	case j.Downgrade != nil:
+		return fmt.Sprintf("downgrade/%s/client-%s", j.Downgrade.Behaviour, j.Downgrade.Protocol)
 	case j.Mixed != nil:
 		return fmt.Sprintf("mixed-readers/secure-first-%v", j.Mixed.SecureFirst)
 	case j.Late != nil:
@@ -100,6 +105,7 @@ func main() {
 		"C (admission): server TLS {off,on} x mode {play, record} x profile {AVP, SAVP} x {udp, tcp interleaved, multicast request} through a raw peer (sysx.Peer / the same over crypto/tls), 6 preference lists of two transports per server, the real client scheme {rtsp, rtsps} x protocol {auto, udp, tcp} against both servers, and redirects {301,302,303,304,305} x Location {rtsp other port, rtsp same port, rtsp with user info, RTSP upper case} from an rtsps URL, with controls (same-scheme redirect followed, on both servers). " +
 		"D (late joiners on the wire): secure stream written from sequence number 65530 (thorough: also 65535, 65524) for 10 (14) packets across the wrap x transport {udp, tcp over TLS, tcp identity-TLS} x EVERY join point j = 0..N (a fresh rtsps reader does DESCRIBE/SETUP/PLAY after exactly j packets; nothing is written while it joins), then the remaining packets + 4: every packet written after PLAY completed must be delivered decrypted with the written payload, no decode error. " +
 		"E (readers with different profiles on one secure stream): an RTSPS server, one raw reader over RTP/AVP/TCP inside TLS and one library reader over RTP/SAVP/UDP on the same stream, both joining orders, 32 (thorough 96) patterned packets: no datagram towards the secure reader shows the payload, the secure reader receives every packet decrypted. " +
+		"F (downgrade by the peer): a scripted RTSPS server describes RTP/SAVP with key material and answers every SETUP with {RTP/AVP/TCP instead of the requested transport, the requested transport with RTP/AVP, RTP/SAVP without key material, RTP/AVP/TCP with key material}, then sends one clear RTP packet after PLAY; client protocol {automatic, UDP, TCP}: the client never asks for the plain profile itself, never PLAYs after a plain SETUP answer, never delivers the clear packet. " +
 		"non-trivial = every case (A: the counter advances in each stream; B: each alteration is a distinct (target, transport, shape, byte, bit/value)); distinct = the tuple itself")
 	run.Assume("A: with a starting roll-over counter of 2^32-1 the sender may refuse to protect the packet whose 48-bit index would wrap (RFC 3711 section 9.2, key exhausted); everything before the wrap must round-trip. A late joiner is only exercised when the counter can advance")
 	run.Assume("the protected form is compared with the clear payload by substring search (A: the whole payload when >= 4 bytes; B: every 8-byte window of the constant 18-byte prefix of the 32-byte patterns); a coincidence has probability < 2^-32 per packet and the space is deterministic")
@@ -167,6 +173,7 @@ func main() {
 	jobs := append(admitJobs(), wireJobs(run.Thorough())...)
 	jobs = append(jobs, lateJobs(run.Thorough())...)
 	jobs = append(jobs, mixedJobs(run.Thorough())...)
+	jobs = append(jobs, downgradeJobs()...)
 	anyJobs := make([]any, len(jobs))
 	for i := range jobs {
 		anyJobs[i] = jobs[i]
